@@ -19,8 +19,9 @@ CFG = {
     "C03": {"props": ["C03", "C03Num"], "profiles": [("control", 0.8), ("int", 0.2)],
             "quick": (2000, 480), "thorough": (20000, 3000), "per_func": 3, "sim": {"quick": 240, "thorough": 1600},
             "opt": {"quick": 8, "thorough": 120}, "what": "control flow / operand stack / locals"},
-    "C04": {"props": ["C04", "C04Mangle", "C04Tables", "C03Num"], "gens": [("Mangle", "gen_mangle"), ("InitTables", "gen_inittables")],
-            "tables_text": {"quick": 150, "thorough": 3000}, "profiles": [("calls", 0.85), ("init", 0.15)],
+    "C04": {"props": ["C04", "C04Mangle", "C04Tables", "C04Child", "C03Num"],
+            "gens": [("Mangle", "gen_mangle"), ("InitTables", "gen_inittables"), ("Instantiate", "gen_instantiate")],
+            "tables_text": {"quick": 150, "thorough": 3000}, "family": {"quick": 40, "thorough": 800}, "profiles": [("calls", 0.85), ("init", 0.15)],
             "quick": (1500, 400), "thorough": (12000, 3000), "per_func": 4, "sim": {"quick": 300, "thorough": 1600},
             "opt": {"quick": 28, "thorough": 400}, "what": "direct / indirect / recursive / imported calls"},
 }
@@ -30,6 +31,14 @@ TOKEN_MODES = ((False, False), (False, True), (True, False), (True, True))      
 def make_jobs(env, specs, per_func):
     return [dict(spec=s, env=env.tuple(), builds=[("gcc", ("-O1",), False)], per_func=per_func, keep_mem=True, memdiag=True)
             for s in specs]
+
+
+def defines_table_with_elems(spec):
+    try:
+        m = ec.load_module(spec)[0]
+        return bool(m.tables and m.elems)
+    except Exception:
+        return False
 
 
 def has_elems(spec):
@@ -94,7 +103,8 @@ def judge(chk, prop, res, stats):
                       ec.replay_obj(res, {"collision": coll, "first_build": [res["builds"][0]["real"]["instantiate"], res["builds"][0]["diffs"][:2]]}), True)
         stats["underscore_boundary_modules"] = stats.get("underscore_boundary_modules", 0) + 1
         return True
-    if any(ec.nan_leak_filter(res["spec"], res.get("calls_made") or [], list(b["diffs"]))[0] or b.get("init_diffs") for b in res["builds"]):
+    if any(ec.nan_leak_filter(res["spec"], res.get("calls_made") or [], list(b["diffs"]))[0] or b.get("init_diffs") for b in res["builds"]) or \
+            (res.get("family") or {}).get("diffs"):
         if stats.setdefault("reported_modules", 0) >= MAX_REPORTED:
             stats["not_reported_same_run"] = stats.get("not_reported_same_run", 0) + 1      # one cause usually hits many modules
             return True
@@ -112,6 +122,18 @@ def judge(chk, prop, res, stats):
             chk.violation(key, "the C emitted by the real w2c2 for a valid module does not compile (%s): %s" % (cls, ri[1][:300]),
                           ec.replay_obj(res, {"build": b["real"]["build"][-1:], "error": ri[1]}), True)
             return True
+        fam = res.get("family") if b is res["builds"][0] else None
+        if fam and not fam.get("skipped"):
+            stats["family_runs"] = stats.get("family_runs", 0) + 1
+            stats["family_calls"] = stats.get("family_calls", 0) + fam["compared_calls"]
+            stats["calls_compared"] += fam["compared_calls"]
+            for d in fam["diffs"][:2]:
+                found = True
+                chk.violation("%s:%s" % (d["kind"], sid),
+                              "instances derived through <module>NewChild (history %s: A = Instantiate, B = A.newChild after A's first calls, C = Instantiate, "
+                              "D = C.newChild): instance %s disagrees with the specification in %s: real %r, expected %r"
+                              % (fam["order"][:40], d.get("role"), d["kind"], d.get("real"), d.get("v8", d.get("spec"))),
+                              ec.replay_obj(res, {"disagreement": d, "family": {k: fam[k] for k in ("order", "reference", "child_created_at")}}), True)
         diffs, nan_dropped = ec.nan_leak_filter(res["spec"], res.get("calls_made") or [], list(b["diffs"]))
         if nan_dropped:
             stats["nan_sign_leaks_tolerated"] = stats.get("nan_sign_leaks_tolerated", 0) + nan_dropped
@@ -173,7 +195,17 @@ def run(tier, PROP="C03"):
         #      corpus + generated modules (those with element segments first); table dump, results, host trace vs V8 as above
         pool = corpus + sorted((s for g, n in zip(gen, share_e2e) for s in g[:min(n, 4 * cfg["opt"][tier])]), key=lambda s: not has_elems(s))
         opt_specs = ec.option_variants(pool, cfg["opt"][tier])
-        results = ec.run_jobs(make_jobs(env, e2e_specs + opt_specs, cfg["per_func"]))
+        jobs = make_jobs(env, e2e_specs + opt_specs, cfg["per_func"])
+        # ---- NewChild families (calls on parent A, child B = A.newChild, independent C, child D = C.newChild, interleaved; call_indirect
+        #      through the table each instance defines; vs V8): corpus + generated modules, those defining a table with element segments first
+        if cfg.get("family"):
+            n_f = cfg["family"][tier]
+            cand = [s for g, n in zip(gen, share_e2e) for s in g[:min(n, 3 * n_f)] if ec.spec_id(s) not in tok_bad]
+            fam_ids = set(ec.spec_id(s) for s in corpus + sorted(cand, key=lambda s: not defines_table_with_elems(s))[:n_f])
+            for j in jobs[:len(e2e_specs)]:
+                if ec.spec_id(j["spec"]) in fam_ids:
+                    j["family"] = True
+        results = ec.run_jobs(jobs)
         ops, traps, trunc = {}, {}, 0
         behav = set()
         for res in results:
@@ -253,6 +285,9 @@ def run(tier, PROP="C03"):
             "differing_modules_not_reported_individually": stats.get("not_reported_same_run", 0),
             "e2e_differences_allowed_by_nan_sign_nondeterminism": stats.get("nan_sign_leaks_tolerated", 0),
             "modules_hit_by_known_finding_" + KEY_UNDERSCORE: stats.get("underscore_boundary_modules", 0),
+            "newchild_family_runs": stats.get("family_runs", 0), "newchild_family_calls_compared": stats.get("family_calls", 0),
+            "newchild_families_with_defined_table_and_call_indirect": sum(1 for r in results if r.get("family") and not r["family"].get("skipped")
+                                                                         and (r.get("shape") or {}).get("table") == "defined" and (r.get("ops") or {}).get("call_indirect")),
             "e2e_option_variants": {t: sum(1 for r in results if not r.get("error") and (r["spec"].get("opt_tag") or "") == t) for t in ("-p", "-m", "-p-m")},
             "e2e_option_variants_with_tables_compared": sum(1 for r in results if not r.get("error") and r["spec"].get("opt_tag") and
                                                             any((b["real"].get("table") or []) != [] for b in r.get("builds", []))),
@@ -288,11 +323,14 @@ def replay(path, PROP="C03"):
         return 1
     with vlib.scratch(PROP.lower() + "r-") as d:
         env = ec.Env(d)
-        res = ec.e2e_job(make_jobs(env, [r["spec"]], CFG[PROP]["per_func"])[0])
+        res = ec.e2e_job(dict(make_jobs(env, [r["spec"]], CFG[PROP]["per_func"])[0], family=bool(CFG[PROP].get("family"))))
         tok = ec.emit_tokens_batch(env, [r["spec"]])
     if res.get("error"):
         raise RuntimeError(res["error"])
     bad = 0
+    for dd in (res.get("family") or {}).get("diffs", []):
+        bad += 1
+        print("replay %s: %s (NewChild family, instance %s): real %r specified %r" % (res["id"], dd["kind"], dd.get("role"), dd.get("real"), dd.get("v8", dd.get("spec"))))
     for b in res["builds"]:
         if b["real"]["instantiate"][0] in ("build_error", "w2c2_error"):
             bad += 1
